@@ -373,6 +373,18 @@ def run(ctx):
             with ctx.case(label=text):
                 check_text(ctx, text, wtree)
             ctx.count('range_end_texts')
+        # every one-character escape: the seven letters that denote a control character, and every other printable character
+        # behind a backslash (which keeps the meaning it has without RAWCHARS), alone, inside text, in a bracket, in a group
+        ti = 0
+        for code in range(0x20, 0x7f):
+            c = chr(code)
+            for text in ('\\' + c, 'x\\' + c + 'y', '[\\' + c + ']', '@(\\' + c + '|b)', '\\' + c + '\\' + c, '[!\\' + c + ']x'):
+                ti += 1
+                if not ctx.mine(ti):
+                    continue
+                with ctx.case(label=text):
+                    check_text(ctx, text, wtree if code % 8 == 0 else None)
+                ctx.count('one_character_escape_texts')
         idx = 0
         plan = [(n, 100) for n in range(1, (4 if quick else 5) + 1)]
         if not quick:
